@@ -2,7 +2,7 @@
 from .common import A_COMMON
 NP = "menelaus.partitioners.NNSpacePartitioner:NNSpacePartitioner"
 ND = "menelaus.data_drift.nndvi:NNDVI"
-TARGETS = [("fn", ND + ".update"), ("fn", ND + ".set_reference"), ("fn", NP + ".compute_nnps_distance"), ("lemma", "nnps_vector_form"), ("lemma", "nnps_symmetric"),
+TARGETS = [("fn", ND + ".update"), ("fn", ND + ".set_reference"), ("fn", ND + "._compute_drift_threshold"), ("fn", NP + ".compute_nnps_distance"), ("lemma", "nnps_vector_form"), ("lemma", "nnps_symmetric"),
            ("lemma", "nnps_identity"), ("lemma", "nnps_range")]
 LEVEL = "exploration"
 LEVEL_TEXT = ("Bounded: NNSpacePartitioner membership vectors, brute-force k-NN adjacency on tie-free data, distance symmetry / range / identity; NNDVI decisions recomputed under the same seed. The claim that sklearn's kneighbors_graph is the k-NN relation is trusted (probed). Deductive (counted separately): compute_nnps_distance returns nnps_sum(v1.M, v2.M, n)/n "
@@ -11,9 +11,10 @@ LEVEL_TEXT = ("Bounded: NNSpacePartitioner membership vectors, brute-force k-NN 
          "NNDVI.update / set_reference are proved as a skeleton: the distance recorded for a batch (ghost d_act) is the contract-level distance of "
          "NNSpacePartitioner built from exactly the current reference batch and the batch supplied (matrix and membership vectors are deterministic "
          "uninterpreted functions of the two blocks and k), drift <=> d_act > the threshold computed for this pair (ghost theta; "
-         "_compute_drift_threshold is an assumed contract), the drifted batch becomes the reference cell by cell, otherwise the reference is unchanged. "
+         "_compute_drift_threshold is verified with its permutation loop abstracted), the drifted batch becomes the reference cell by cell, otherwise the reference is unchanged. "
          "NNSpacePartitioner.build is bounded only. Claimed as exploration.")
 ASSUMPTIONS = A_COMMON + [
-    "ASSUMED (unverified) contract: NNDVI._compute_drift_threshold returns some real number and modifies nothing",
+    "NNDVI._compute_drift_threshold returns some real number and modifies nothing: verified with its permutation loop ABSTRACTED "
+    "(the loop body is not verified; the tail - norm.fit, norm.ppf - is); its monotonicity in alpha is the two-run obligation NNDVI_alpha under C17",
     "NNSpacePartitioner is an opaque object inside NNDVI.update: nnps_matrix, v1, v2 are deterministic uninterpreted functions of (reference block, test block, k); their relation to the k-NN graph is decided by the bounded tier",
 ]
